@@ -834,13 +834,24 @@ def replaceNonesWithNonsense(
         )
 
     try:
-        data = data.astype(realType)
+        coerced = data.astype(realType)
     except Exception:
         raise ValueError(
             "Could not coerce data for {} to {}, data:\n{}".format(
                 paramName, realType, data
             )
         )
+
+    if coerced.dtype.kind in "iu" and not (
+        np.array_equal(coerced, data) and np.all(coerced[nones] == defaultValue)
+    ):
+        # realType was taken from the first non-None entry; it cannot hold all the others
+        raise ValueError(
+            "Could not coerce data for {} to {} without changing its values, data:\n{}".format(
+                paramName, realType, data
+            )
+        )
+    data = coerced
 
     if data.dtype.kind == "O":
         raise TypeError(
